@@ -337,11 +337,33 @@ func buildBatch(work string, results []GenResult) (string, error) {
 
 // runBatch pipes cases to the batch binary and returns id -> observation.
 func runBatch(bin string, cases []rt.Case) (map[string]string, error) {
+	res := map[string]string{}
+	start := 0
+	// a fatal error of the Go runtime (stack overflow, concurrent map writes, out of memory) cannot
+	// be recovered inside the process: the case that was running is recorded as FATAL with the
+	// runtime's message, and a fresh process resumes after it
+	for crashes := 0; start < len(cases); crashes++ {
+		n, fatal, err := runBatchFrom(bin, cases[start:], res)
+		if err == nil {
+			return res, nil
+		}
+		if crashes >= 25 || start+n >= len(cases) {
+			return res, err
+		}
+		res[cases[start+n].ID] = "FATAL:" + hexs(fatal)
+		start += n + 1
+	}
+	return res, nil
+}
+
+// runBatchFrom runs the cases in one process; on a crash it returns how many cases had been
+// answered and the runtime's message.
+func runBatchFrom(bin string, cases []rt.Case, res map[string]string) (int, string, error) {
 	var in bytes.Buffer
 	enc := json.NewEncoder(&in)
 	for i := range cases {
 		if err := enc.Encode(&cases[i]); err != nil {
-			return nil, err
+			return 0, "", err
 		}
 	}
 	cmd := exec.Command(bin)
@@ -352,25 +374,42 @@ func runBatch(bin string, cases []rt.Case) (map[string]string, error) {
 	cmd.Stderr = &stderr
 	outp, err := cmd.StdoutPipe()
 	if err != nil {
-		return nil, err
+		return 0, "", err
 	}
 	if err := cmd.Start(); err != nil {
-		return nil, err
+		return 0, "", err
 	}
-	res := map[string]string{}
+	answered := 0
 	sc := bufio.NewScanner(outp)
 	sc.Buffer(make([]byte, 1<<20), 1<<26)
 	for sc.Scan() {
 		line := sc.Text()
 		if i := strings.IndexByte(line, '\t'); i >= 0 {
 			res[line[:i]] = line[i+1:]
+			answered++
 		}
 	}
 	werr := cmd.Wait()
 	if werr != nil {
-		return res, fmt.Errorf("batch binary: %v: %s", werr, tail(stderr.String(), 2000))
+		msg := "process died: " + werr.Error()
+		for _, l := range strings.Split(stderr.String(), "\n") {
+			if strings.HasPrefix(l, "fatal error") || strings.HasPrefix(l, "runtime: goroutine stack exceeds") || strings.HasPrefix(l, "panic:") {
+				msg = l
+				break
+			}
+		}
+		var frames []string
+		for _, l := range strings.Split(stderr.String(), "\n") {
+			if strings.HasPrefix(l, "verifscratch/mod/") && len(frames) < 4 {
+				frames = append(frames, strings.SplitN(l, "(", 2)[0])
+			}
+		}
+		if len(frames) > 0 {
+			msg += " @ " + strings.Join(frames, " < ")
+		}
+		return answered, msg, fmt.Errorf("batch binary: %v: %s", werr, tail(stderr.String(), 2000))
 	}
-	return res, nil
+	return answered, "", nil
 }
 
 func tail(s string, n int) string {
